@@ -11,12 +11,19 @@ package aa
 //@   opt prop=C16
 //@   inline
 
-// tokenToSlice is used as a deterministic function of its argument; its body (strings.Trim,
-// strings.Split) is not verified.
+// tokenToSlice: with T the token without surrounding parentheses and newlines, the result
+// is [T] when T has neither a comma nor a blank, and otherwise the pieces of T split at the
+// commas (at the blanks when there is no comma), each without surrounding blanks, in order:
+// no piece is dropped, added or reordered. strings.Trim/Split/Contains are uninterpreted.
 //@ func tokenToSlice
 //@   opt prop=C16
 //@   pure
-//@   trusted
+//@   loop 1 invariant len(res) == iter(1) && iter(1) <= len(ext("strings.Split", token, sep))
+//@   loop 1 invariant forall(k, 0, iter(1), res[k] == ext("strings.Trim", ext("strings.Split", token, sep)[k], " "))
+//@   loop 1 decreases len(ext("strings.Split", token, sep)) - iter(1)
+//@   ensures imp(!ext("strings.ContainsAny", ext("strings.Trim", token, "()\n"), ", "), len(result) == 1 && result[0] == ext("strings.Trim", token, "()\n"))
+//@   ensures imp(ext("strings.ContainsAny", ext("strings.Trim", token, "()\n"), ", ") && ext("strings.Contains", ext("strings.Trim", token, "()\n"), ","), len(result) == len(ext("strings.Split", ext("strings.Trim", token, "()\n"), ",")) && forall(k, 0, len(result), result[k] == ext("strings.Trim", ext("strings.Split", ext("strings.Trim", token, "()\n"), ",")[k], " ")))
+//@   ensures imp(ext("strings.ContainsAny", ext("strings.Trim", token, "()\n"), ", ") && !ext("strings.Contains", ext("strings.Trim", token, "()\n"), ",") && ext("strings.Contains", ext("strings.Trim", token, "()\n"), " "), len(result) == len(ext("strings.Split", ext("strings.Trim", token, "()\n"), " ")) && forall(k, 0, len(result), result[k] == ext("strings.Trim", ext("strings.Split", ext("strings.Trim", token, "()\n"), " ")[k], " ")))
 
 //@ func newQualifierFromLog
 //@   opt prop=C16
